@@ -2,3 +2,27 @@ claim("C03", "goroutine-topology and awaited-call-chain rules over SSA (static a
       "Decides, for all schedules, the topology that makes foreground delivery serial and in wire order: single in-body producer with '\\n' framing, single dispatching consumer, every edge from the consumer to a foreground/internal handler awaited (call, defer or WaitGroup-joined go), CONNECTED placed after the 001 handler's state updates, DISCONNECTED after Wait. Go's channel FIFO and WaitGroup semantics then give the property; tests cannot quantify over interleavings.",
       "Trusted: go/ssa, Go channel/WaitGroup semantics, bufio framing. Not decided: bufio's own correctness; REGISTER ordering (outside the claim).",
       "DESIGN.md 5/C03")
+claim("C04", "key-normalisation value flow, lockset over handler-set state, snapshot-outside-lock and once-per-element path rules (static analysis)",
+      "Decides for all histories and schedules the structural discipline of the handler set: lower-cased keys on every map operation, list/map state accessed only under the set's RWMutex (writes exclusively), no re-acquisition while held, handlers run unlocked on a snapshot freshly built under the lock, exactly one goroutine per snapshot element, and every frame down to the handler invokes it on all paths. These are necessary conditions of 'exactly once, case-insensitive, deadlock-free'; they are not the list algebra.",
+      "Not decided: the linked-list algebra over add/remove histories (heap-shape property). Trusted: go/ssa, sync.RWMutex semantics.",
+      "DESIGN.md 5/C04")
+claim("C05", "dominance of the internal dispatch phase; who-may-mutate-the-tracker call-graph rule (static analysis)",
+      "Pure ordering property, decided for all schedules: the internal set (holding every state handler, registered only through the internal wrapper) is dispatched and awaited before the background and foreground sets, and every mutating Tracker call in package client is reached only by awaited edges from internal handlers or lifecycle functions.",
+      "Relies on C03's awaited-chain rules (checked separately). Trusted: go/ssa, WaitGroup semantics.",
+      "DESIGN.md 5/C05")
+claim("C09", "single-producer-path / single-consumer pipeline topology and who-may-write-the-socket rules (static analysis)",
+      "Decides the pipeline topology from which exactly-once in-order transmission follows for all interleavings: Raw's own blocking send is the only producer, the single send goroutine the only forwarding consumer, each dequeued line goes unmodified to exactly one write which does WriteString(line+CRLF) then Flush, nothing else is handed the socket or its writer, and the queue is replaced only after the already-connected refusal.",
+      "Not decided: bufio/net byte-level behaviour (trusted); behaviour after the link drops (outside the claim).",
+      "DESIGN.md 5/C09")
+claim("C14", "lockset analysis over every access to tracker state; one-critical-section and no-reacquire path rules; deep freshness with escape analysis of every returned snapshot (static analysis)",
+      "Decided for all histories and interleavings: every access to tracker state holds the tracker mutex, each exported method is one critical section and never re-acquires, every returned pointer/map is a fresh allocation that does not escape into tracker state and is recursively private, and no caller storage is retained. Mutual exclusion over whole methods gives linearizability; freshness gives snapshot privacy.",
+      "Trusted: Go memory model for sync.Mutex, go/ssa; aliasing is field/type-based (no pointer analysis is available), adequate because tracker objects are only reachable through the tracker.",
+      "DESIGN.md 5/C14")
+claim("C15", "copy-per-invocation value-flow chain and type-driven deep-copy completeness of Line.Copy (static analysis)",
+      "Decided for all lines and schedules: every handler invocation receives the single-use result of its own Line.Copy (or a forwarded wrapper parameter), and Copy replaces every reference-typed field of Line - enumerated from go/types, so a new slice/map field is caught - by a fresh element-wise copy on every path where the source may be non-nil.",
+      "Trusted: go/ssa; time.Time treated as immutable.",
+      "DESIGN.md 5/C15")
+claim("C16", "defer-dominance per handler frame; joined/detached goroutine edges (static analysis)",
+      "Decided for all handler programs: every invocation of handler code is dominated by a deferred call of Config.Recover in a frame that invokes exactly one handler; each handler has its own WaitGroup-joined goroutine; the default hook calls recover() directly; the background dispatch is a detached go.",
+      "Assumes Config.Recover is non-nil and recovers (the default is checked). Custom non-recovering hooks are outside what can be decided.",
+      "DESIGN.md 5/C16")
